@@ -129,6 +129,39 @@ def lattice_sample(r, n):
     return r.sample(cfgs, n) if n < len(cfgs) else cfgs
 
 
+def eff_explode(kw):
+    """`explode.unwrap_or(style is None or form)` as converter/parameters.rs computes it"""
+    return kw["explode"] if kw.get("explode") is not None else kw.get("style") in (None, "form")
+
+
+def array_e_cases(ctx):
+    """the ARRAY PARAMETER dimension, bounded-exhaustive: one document per point (WF is judged per point)"""
+    out = []
+    for i, pt in enumerate(featgen.array_param_space()):
+        modes = ["client-mod", "server-mod"] if not ctx.quick else [["client-mod", "server-mod"][i % 2]]
+        for m in modes:
+            out.append(gen_case(featgen.array_param_spec([pt]), m, {"vis": "public", "enum_mode": "merge", "builders": i % 3 == 0}))
+    return out
+
+
+def array_a_cases(ctx):
+    """the same points packed into few documents for rustc: one operation per (location, item type, level,
+    separator applied or not), so that a shape that compiles is never in one struct with a shape that does not"""
+    groups = {}
+    for pt in featgen.array_param_space():
+        key, loc, level, kw = pt
+        if ctx.quick and level == "path":
+            continue
+        # required header parameters with a default never compile (KnownRequiredHeaderDefault): their own group
+        split = (not eff_explode(kw)) if loc == "query" else (kw["required"] and kw["default"])
+        groups.setdefault((loc, kw["items"], level, split), []).append(pt)
+    out = []
+    for g, pts in sorted(groups.items(), key=lambda kv: str(kv[0])):
+        for m in ("client-mod", "server-mod"):
+            out.append(gen_case(featgen.array_param_spec(pts), m, {"vis": "public", "enum_mode": "merge"}, code=True))
+    return out
+
+
 def e_cases(ctx):
     r = ctx.rng
     out = []
@@ -141,6 +174,7 @@ def e_cases(ctx):
     for f in FEATURES:
         for mode in featgen.MODES:
             out.append(gen_case(FEATURES[f], mode, {"vis": "public", "enum_mode": "merge"}))
+    out += array_e_cases(ctx)
     # random documents of the feature grammar x random flags
     for _ in range(250 if ctx.quick else 2000):
         mode, cfg = featgen.rand_cfg(r)
@@ -192,6 +226,7 @@ def arena(ctx, n_random, per_round=120):
     for f in FEATURES:
         for mode in (["client-mod", "server-mod"] if ctx.quick else featgen.MODES):
             cases.append(gen_case(FEATURES[f], mode, {"vis": "public", "enum_mode": "merge", "builders": f == "param-clash"}, code=True))
+    cases += array_a_cases(ctx)
     cases.append(gen_case(FEATURES["plain"], "client-mod", {"vis": "file", "enum_mode": "merge"}, code=True))
     cases.append(gen_case(FEATURES["plain"], "types", {"vis": "file", "enum_mode": "merge"}, code=True))
     for _ in range(n_random):
